@@ -86,9 +86,13 @@ def _parallel_replay(ctx, exe, env, cases, fanout, timeout):
     return outs, crashes
 
 
-def execute(ctx, batches, modes=MODES, fanout=4, build_workers=4, translate_variant="asan", run_variant="fast",
-            timeout=1500, omp_threads=3):
+def execute(ctx, batches, modes=MODES, fanout=4, build_workers=4, translate_variant="fast", run_variant="fast",
+            timeout=1500, omp_threads=3, asan_batches=1):
+    """asan_batches: number of batches (spread evenly) that are ALSO translated by the ASan+UBSan build of the
+    library (the sanitized translators are ~40x slower); a sanitizer report or a different output is a terr."""
     translate_variant = os.environ.get("OKLRUN_TRANSLATE_VARIANT", translate_variant)   # development aid
+    if os.environ.get("OKLRUN_ASAN_BATCHES"):                                            # development aid
+        asan_batches = int(os.environ["OKLRUN_ASAN_BATCHES"])
     t0 = time.time()
     def lap(what):
         ctx.notes.append("%s: %.1fs" % (what, time.time() - t0))
@@ -130,6 +134,33 @@ def execute(ctx, batches, modes=MODES, fanout=4, build_workers=4, translate_vari
             r.terr = o.get("err") or "translator reported failure"
         else:
             r.translated = True
+    # ---- 1b. sanitizer pass over a sample of the batches
+    if asan_batches and translate_variant != "asan":
+        aexe, alib = _harness(ctx, "asan")
+        aenv = ctx.occa_env(alib)
+        pick = sorted(set(int(i * len(batches) / asan_batches) for i in range(min(asan_batches, len(batches)))))
+        acases, akeys = [], []
+        for bi in pick:
+            for m in modes:
+                r = res[(bi, m)]
+                acases.append({"op": "translate", "mode": m, "okl": batches[bi].path, "device": r.device_src + ".asan",
+                               "launcher": r.launcher_src + ".asan", "props": batches[bi].props})
+                akeys.append((bi, m))
+        outs, crashes = _parallel_replay(ctx, aexe, aenv, acases, fanout, timeout)
+        for c in crashes:
+            if c.get("beh", -1) >= 0:
+                r = res[akeys[c["beh"]]]
+                r.translated = False
+                r.terr = "translator crashed under ASan/UBSan: %s\n%s" % (c.get("crash"), c.get("log", "")[-2500:])
+        for i, key in enumerate(akeys):
+            r = res[key]
+            if not r.translated:
+                continue
+            if read_text(r.device_src + ".asan", 10 ** 7) != read_text(r.device_src, 10 ** 7):
+                r.translated = False
+                r.terr = "sanitized and plain translator outputs differ for %s" % r.device_src
+        ctx.notes.append("translation repeated under ASan+UBSan for %d of %d batches" % (len(pick), len(batches)))
+        lap("sanitized translation of %d batch x mode" % len(acases))
     # ---- 2. emulated modules
     rexe, rlib = _harness(ctx, run_variant)
     lap("run harness ready")
